@@ -205,6 +205,24 @@ NARROW = {"uint8": (0, 255), "uint16": (0, 65535), "int16": (-32768, 32767), "in
           "uint32": (0, 2 ** 32 - 1), "int8": (-128, 127), "float32": None}
 
 
+SPECIAL = [-0.0, 0.0, 5e-324, -5e-324, 2.2250738585072014e-308, 1.0, 1.0000000000000002, 0.9999999999999999,
+           9007199254740992.0, 9007199254740994.0, -1.0, -1.0000000000000002, 0.1 + 0.2, 0.3, 1e308, -1e308]
+
+
+def special_values(rng, c, p=0.5):
+    """Floats that are valid data but sit at the edges of the format: signed zeros, the smallest subnormals, neighbours
+    that differ in the last bit, integers at 2**53, the largest finite numbers.  (Exact for the model: every float is
+    a rational; the two zeros are the same number.)"""
+    for r in c["matrix"]:
+        for j in range(len(r)):
+            if rng.random() < p:
+                r[j] = rng.choice(SPECIAL)
+    c["mode"] = "special"
+    c["tags"] = list(c.get("tags", [])) + ["special_values"]
+    c.pop("dtypes", None)
+    return c
+
+
 def narrow_dtypes(rng, c, positive=False, wide=0.5, pairs=True, floats=True):
     """Criteria stored in narrow / unsigned numpy types (what a caller gets from an image, a sensor file or a
     compact table).  The values are made to fit exactly; half of the time some of them sit near the ends of the type's
